@@ -95,6 +95,16 @@ def _recipes():
         "MSSQLQueryBuilder": sub(D.MSSQLQuery),
         "PostgreSQLQueryBuilder": sub(D.PostgreSQLQuery),
         "_SetOperation": lambda a: _al(Query.from_(u).select("x").union(Query.from_(u).select("y")), a),
+        # ClickHouse helper wrappers with a get_sql of their own
+        "clickhouse.search_string._AbstractSearchString":
+            lambda a: __import__("pypika.clickhouse.search_string", fromlist=["Match"]).Match(f, "p", alias=a),
+        "clickhouse.search_string._AbstractMultiSearchString":
+            lambda a: __import__("pypika.clickhouse.search_string", fromlist=["x"]).MultiSearchAny(f, ["p"], alias=a),
+        "clickhouse.type_conversion.ToFixedString":
+            lambda a: __import__("pypika.clickhouse.type_conversion", fromlist=["x"]).ToFixedString(f, 3, alias=a),
+        "clickhouse.array.HasAny": lambda a: __import__("pypika.clickhouse.array", fromlist=["x"]).HasAny(f, g, alias=a),
+        "clickhouse.array._AbstractArrayFunction": lambda a: __import__("pypika.clickhouse.array", fromlist=["x"]).Length(f, alias=a),
+        "clickhouse.array.Array": lambda a: __import__("pypika.clickhouse.array", fromlist=["x"]).Array([1, 2], alias=a),
         # further members of the Function family (all inherit Function.get_sql; checked below)
         "Function:Sum": lambda a: __import__("pypika.functions", fromlist=["Sum"]).Sum(f, alias=a),
         "Function:Count": lambda a: __import__("pypika.functions", fromlist=["Count"]).Count("*", alias=a),
@@ -113,8 +123,9 @@ def _owners():
     import pkgutil
     import pypika
     from pypika.terms import Term
-    for m in pkgutil.iter_modules(pypika.__path__):
-        importlib.import_module("pypika." + m.name)
+    for m in pkgutil.walk_packages(pypika.__path__, "pypika."):
+        if ".tests" not in m.name:
+            importlib.import_module(m.name)          # sub-packages too (pypika.clickhouse.*)
     seen = {}
 
     def walk(c):
@@ -126,13 +137,24 @@ def _owners():
     return seen
 
 
+CORE_MODULES = ("pypika.terms", "pypika.queries", "pypika.dialects")
+
+
+def owner_key(cls):
+    """table key of a class that defines get_sql: bare name in the core modules, module-qualified elsewhere"""
+    return cls.__name__ if cls.__module__ in CORE_MODULES else cls.__module__[len("pypika."):] + "." + cls.__name__
+
+
 QS1 = {"quote_char": '"', "secondary_quote_char": "'", "alias_quote_char": "`", "as_keyword": True}
 QS2 = {"quote_char": '"', "secondary_quote_char": "'"}
 
 
 def _suffix(mk, kw):
-    base = mk(None).get_sql(**kw)
-    full = mk(SENT).get_sql(**kw)
+    try:
+        base = mk(None).get_sql(**kw)
+        full = mk(SENT).get_sql(**kw)
+    except Exception as e:  # noqa  (clickhouse.array.Array.get_sql takes no keyword arguments)
+        return "!" + type(e).__name__
     if not full.startswith(base):
         return "!" + full
     return full[len(base):]
@@ -141,7 +163,7 @@ def _suffix(mk, kw):
 def alias_rows():
     rec = _recipes()
     owners = _owners()
-    names = sorted({o.__name__ for o in owners.values()})
+    names = sorted({owner_key(o) for o in owners.values()})
     missing = [n for n in names if n not in rec and n not in ABSTRACT_OWNERS]
     if missing:
         raise RuntimeError("Term classes with an own get_sql and no extraction recipe: %r" % missing)
@@ -351,7 +373,8 @@ RULE = ("(a) terms of the shared `terms` family with aliases at every level (p=0
         "intermediate builder after random calls (the model is a function of the final spec: a difference is a state leak). "
         "(h) select lists with '*' / t.* / Star() before or after aliased terms (what survives is modelled by normalize_sel, "
         "tied to select() by extracted star programs), the terms re-used in GROUP BY / ORDER BY. "
-        "Otherwise alias names are sentinels (zq..) so the oracle can count "
+        "(i) the ClickHouse helper wrappers of pypika/clickhouse/*.py (enumerated from the source) around aliased "
+        "column objects in every position. Otherwise alias names are sentinels (zq..) so the oracle can count "
         "them per clause. Non-trivial = some aliased object sits in a non-select position or inside another expression, or a "
         "GROUP BY/ORDER BY element is aliased; distinct by structural hash.")
 TRUSTED = [
@@ -372,8 +395,8 @@ ASSUMPTIONS = [
 
 ALIAS_IX = {"field": 3, "vals": 2, "vali": 2, "valb": 3, "valnone": 1, "valf": 2, "vald": 2, "lit": 2, "null": 1, "arith": 4,
             "basic": 4, "cplx": 4, "in": 4, "between": 4, "bitand": 3, "isnull": 2, "notnull": 2, "not": 2, "all": 2, "case": 3,
-            "func": 3, "cast": 3, "tuple": 2, "array": 2, "sub": 1, "nega": 2, "agg": 3, "an": 4}
-FUNCLIKE = ("func", "cast", "agg", "an")
+            "func": 3, "cast": 3, "tuple": 2, "array": 2, "sub": 1, "nega": 2, "agg": 3, "an": 4, "ch": 4}
+FUNCLIKE = ("func", "cast", "agg", "an", "ch")
 ORACLE_ONLY = ("nega", "an")
 AGGS = {"SUM": "Sum", "AVG": "Avg", "MIN": "Min", "MAX": "Max", "COUNT": "Count"}
 
@@ -410,6 +433,8 @@ def children(t):
         return [t[2]]
     if k == "an":
         return [t[2]] + list(t[3])
+    if k == "ch":
+        return list(t[2])
     if k in ("tuple", "array"):
         return list(t[1])
     return []
@@ -437,6 +462,8 @@ def map_children(t, f):
     elif k == "an":
         t[2] = f(t[2])
         t[3] = [f(x) for x in t[3]]
+    elif k == "ch":
+        t[2] = [f(x) for x in t[2]]
     elif k in ("tuple", "array"):
         t[1] = [f(x) for x in t[1]]
     return t
@@ -453,11 +480,75 @@ def _ends_in_sub(t):
     return t[0] == "sub" or (t[0] == "not" and _ends_in_sub(t[1]))
 
 
+# ---- ClickHouse helper wrappers (pypika/clickhouse/*.py), enumerated from the source -------------------------------
+#   ["ch", ClassName, [term args], extra, alias]   extra = pattern / pattern list / length (None otherwise)
+CH_PATTERNS = {("name", "pattern"): "pat", ("name", "patterns"): "pats", ("name",): "one", ("field", "length"): "fix",
+               ("left_array", "right_array"): "two-arrays", ("array",): "one-array", ("*conditions",): "var", ("term", "alt"): "two"}
+_CH = None
+
+
+def ch_classes():
+    """concrete Term classes of pypika.clickhouse.* -> (module, constructor pattern, owner key of get_sql); fails closed on a
+    class whose constructor shape is unknown"""
+    global _CH
+    if _CH is not None:
+        return _CH
+    import inspect
+    owners = _owners()
+    out = {}
+    for cls, owner in owners.items():
+        if not cls.__module__.startswith("pypika.clickhouse.") or inspect.isabstract(cls):
+            continue
+        if cls.__name__ == "Array":
+            continue                       # a literal, not a wrapper of a term (its get_sql takes no keyword arguments)
+        ps = []
+        for n_, p_ in list(inspect.signature(cls.__init__).parameters.items())[1:]:
+            if n_ in ("alias", "schema", "kwargs"):
+                continue
+            ps.append(("*" + n_) if p_.kind == p_.VAR_POSITIONAL else n_)
+        pat = CH_PATTERNS.get(tuple(ps))
+        if pat is None:
+            raise RuntimeError("ClickHouse helper %s.%s has an unknown constructor shape %r" % (cls.__module__, cls.__name__, ps))
+        out[cls.__name__] = (cls.__module__, pat, owner_key(owner))
+    if not out:
+        raise RuntimeError("no ClickHouse helper classes found")
+    _CH = out
+    return out
+
+
+def ch_make(name, args, extra, alias):
+    import importlib
+    mod, pat, _ = ch_classes()[name]
+    C = getattr(importlib.import_module(mod), name)
+    if pat in ("pat", "pats", "fix"):
+        return C(args[0], extra, alias=alias)
+    if pat in ("one", "one-array"):
+        return C(args[0], alias=alias)
+    if pat in ("two-arrays", "two"):
+        return C(args[0], args[1], alias=alias)
+    return C(*args, alias=alias)
+
+
+def ch_spec(name, arg, alias, arg2=None):
+    """a spec of helper class `name` around the term spec `arg`"""
+    _, pat, _ = ch_classes()[name]
+    extra = {"pat": "p%", "pats": ["p", "q"], "fix": 3}.get(pat)
+    args = [arg] if pat in ("pat", "pats", "fix", "one", "one-array") else [arg, arg2 or F("b")]
+    if pat == "var":
+        args = [["basic", "gt", arg, I(0), None], arg, arg2 or I(0)]
+    return ["ch", name, args, extra, alias]
+
+
+def ch_is_function(name):
+    """does the helper inherit Function.get_sql (then the shared TFunc models it)?"""
+    return ch_classes()[name][2] == "Function"
+
+
 def modelled(t):
     """inside the Coq term model?  Not: aliased Negative, analytic functions, and a sub-query as a direct arithmetic operand
     (pypika parenthesises it by accident -- getattr(subquery, "operator") is a Field -- which the shared Terms.v does not model)"""
     for n, _ in nodes(t):
-        if n[0] in ORACLE_ONLY:
+        if n[0] in ORACLE_ONLY or (n[0] == "ch" and not ch_is_function(n[1])):
             return False
         if n[0] == "arith" and (_ends_in_sub(n[2]) or _ends_in_sub(n[3])):
             return False
@@ -513,6 +604,8 @@ def bld(t, memo):
     elif k == "agg":
         import pypika.functions as F
         o = getattr(F, AGGS[t[1]])(b(t[2]), alias=t[3])
+    elif k == "ch":
+        o = ch_make(t[1], [b(a) for a in t[2]], t[3], t[4])
     elif k == "an":
         import pypika.analytics as A
         o = getattr(A, AGGS[t[1]])(b(t[2])).over(*[b(x) for x in t[3]])
@@ -542,6 +635,8 @@ def coq_term(t):
 def _rewrite_aggs(t):
     if t[0] == "agg":
         return ["func", t[1], [_rewrite_aggs(t[2])], t[3]]
+    if t[0] == "ch":      # only the helpers that inherit Function.get_sql reach this point (modelled())
+        return ["func", ch_make(t[1], [tf.build(F("a")) for _ in t[2]], t[3], None).name, [_rewrite_aggs(x) for x in t[2]], t[4]]
     return map_children(t, _rewrite_aggs)
 
 
@@ -1217,6 +1312,10 @@ class G:
             t = ["cast", self.num(d - 1), r.choice(["SIGNED", "varchar(10)"]), None]
         elif kind == "cplx":
             t = ["cplx", r.choice(["and", "or", "xor"]), self.boolean(d - 1), self.boolean(d - 1), None]
+        elif kind == "ch":
+            name = r.choice(sorted(ch_classes()))
+            t = ch_spec(name, F(r.choice(tf.NAMES), self.fresh() if r.random() < 0.7 else None, r.choice(self.tables)), None,
+                        F(r.choice(tf.NAMES), self.fresh() if r.random() < 0.5 else None))
         elif kind == "nega":
             t = ["nega", self.num(d - 1), None]
         elif kind in ("isnull", "notnull", "all"):
@@ -1253,7 +1352,7 @@ class G:
             return self.r.choice(ALWAYS)
         if x < 0.95:
             return "cplx"
-        return self.r.choice(["nega", "an"])
+        return self.r.choice(["nega", "an", "ch", "ch"])
 
     def wrap(self, x):
         """a larger expression (criterion-like) containing the object x"""
@@ -1874,6 +1973,24 @@ def star_grid(classes=("Query", "OracleQuery", "SnowflakeQuery")):
     return out
 
 
+def ch_grid(classes=("ClickHouseQuery", "Query")):
+    """every ClickHouse helper wrapper (enumerated from pypika/clickhouse/*.py) around an ALIASED column object: directly in
+    the select list (with and without an alias of its own), in WHERE, GROUP BY, ORDER BY, and as an argument of a function"""
+    out = []
+    col = F("a", "zq1")
+    for cls in classes:
+        for name in sorted(ch_classes()):
+            w, wa = ch_spec(name, col, None), ch_spec(name, col, "zqA")
+            out.append(stmt(cls, sel=[w]))
+            out.append(stmt(cls, sel=[wa, col]))
+            out.append(stmt(cls, sel=[F("c", "zqB")], where=["basic", "gt", w, I(0), None], group=[wa], order=[[wa, None]]))
+            out.append(stmt(cls, sel=[wa], group=[wa], order=[[wa, "desc"]]))
+            out.append(stmt(cls, sel=[["func", "G", [w], "zqB"]], having=["basic", "eq", w, I(1), None]))
+            out.append({"kind": "term", "t": wa, "c": dict(tf.STR_CTX, wa=True)})
+            out.append({"kind": "term", "t": w, "c": dict(tf.STR_CTX, wa=True, aq="`", askw=True)})
+    return out
+
+
 def corpus():
     sc = dict(tf.STR_CTX)
     w_null = ["isnull", F("a"), "n"]
@@ -1895,7 +2012,7 @@ def corpus():
         proved.append(stmt(cls, sel=[ex_m, ex_s], on=["basic", "eq", F("a"), F("b"), None],
                            where=["basic", "gt", ex_m, I(0), None], group=[ex_m], having=["basic", "gt", ex_s, I(1), None],
                            order=[[ex_m, "desc"], [ex_s, None], [F("z", "zz"), None]]))
-    out = proved + grid_cases(("Query",)) + nested_grid() + collide_grid() + render_grid() + star_grid()
+    out = proved + grid_cases(("Query",)) + nested_grid() + collide_grid() + render_grid() + star_grid() + ch_grid()
     # alias quoting of every consuming kind in the classes whose convention differs (sentinel names)
     for cls in ("SnowflakeQuery", "PostgreSQLQuery", "OracleQuery", "MSSQLQuery", "ClickHouseQuery", "MySQLQuery"):
         for k in CONSUMING + ["an", "isnull", "cplx", "nega"]:
@@ -2022,7 +2139,7 @@ def targeted_search(rng, broken, mism_cases):
         out.append(gen_stmt(rng, "quick"))
     for _ in range(1500):
         out.append(gen_nested(rng, "quick"))
-    out += collide_grid([py for _, py in CLASSES]) + render_grid([py for _, py in CLASSES]) + star_grid([py for _, py in CLASSES])
+    out += collide_grid([py for _, py in CLASSES]) + render_grid([py for _, py in CLASSES]) + star_grid([py for _, py in CLASSES]) + ch_grid([py for _, py in CLASSES])
     for _ in range(1500):
         out.append(gen_collide(rng, "quick"))
     return out
